@@ -56,7 +56,7 @@ func c22Values(fs *Facts) {
 	fs.Raw("valStore", "[]", "", gw)
 	fs.Raw("valRead", "[]", "", gw)
 	fs.Raw("valDec", "[]", "", sdk)
-	for _, n := range []string{"valTablesRecognised", "timeAsUnixSeconds", "structValueEncoded", "bodySkipsNil", "emptyLenZero", "emptyNegZero", "voidClearsContent"} {
+	for _, n := range []string{"valTablesRecognised", "timeAsUnixSeconds", "structValueEncoded", "bodySkipsNil", "emptyLenZero", "emptyNegZero", "voidClearsContent", "bodySkipsUnexported", "profileSkipsUnexported", "dashIsSkip"} {
 		fs.Tri(n, Unknown, sdk)
 	}
 	fh, err1 := Load(sdk)
@@ -314,6 +314,17 @@ func c22Values(fs *Facts) {
 			fs.Tri("voidClearsContent", TriOf(clears), "app/core/hydra/swamp/treasure/treasure.go:"+itoa(ft.Line(fd)))
 		}
 	}
+	// structural shapes
+	if fd := fm.Func("", "inspectCatalogModel"); fd != nil {
+		src := fm.Str(fd)
+		fs.Tri("bodySkipsUnexported", TriOf(strings.Contains(src, "if !t.Field(i).IsExported() { continue }")), mapb+":"+itoa(fm.Line(fd)))
+		fs.Tri("dashIsSkip", TriOf(strings.Contains(src, `if head == "" || head == "-" {`)), mapb+":"+itoa(fm.Line(fd)))
+	}
+	p1, p2, p3 := fh.Func("", "convertProfileModelToKeyValuePair"), fh.Func("", "setTreasureValueToProfileModel"), fh.Func("", "getKeyFromProfileModel")
+	if p1 != nil && p2 != nil && p3 != nil {
+		all := fh.Contains(p1, "if !field.IsExported() { continue }") && fh.Contains(p2, "t.Field(i).IsExported()") && fh.Contains(p3, "IsExported()")
+		fs.Tri("profileSkipsUnexported", TriOf(all), sdk+":"+itoa(fh.Line(p1)))
+	}
 	_ = token.NoPos
 }
 
@@ -322,7 +333,7 @@ func c22ValueDefaults(fs *Facts) {
 	fs.Raw("valStore", "[]", "", "")
 	fs.Raw("valRead", "[]", "", "")
 	fs.Raw("valDec", "[]", "", "")
-	for _, n := range []string{"valTablesRecognised", "timeAsUnixSeconds", "structValueEncoded", "bodySkipsNil", "emptyLenZero", "emptyNegZero", "voidClearsContent"} {
+	for _, n := range []string{"valTablesRecognised", "timeAsUnixSeconds", "structValueEncoded", "bodySkipsNil", "emptyLenZero", "emptyNegZero", "voidClearsContent", "bodySkipsUnexported", "profileSkipsUnexported", "dashIsSkip"} {
 		fs.Tri(n, Unknown, "")
 	}
 }
